@@ -387,13 +387,15 @@ Qed.
 Lemma vinsertpair_pack : forall g t r, WFpack g -> nvelt g < 65535 -> is_u16 t -> is_u16 r ->
   exists g' n, vinsertpair g t r = Some (g', n) /\ WFpack g' /\ members g' = members g ++ [(t, r)] /\
     n = nvelt g + 1 /\ nvelt g' = n /\
-    (vgname g', vgclass g', oref g', access g', marked g') = (vgname g, vgclass g, oref g, access g, true).
+    (vgname g', vgclass g', oref g', access g', marked g') = (vgname g, vgclass g, oref g, access g, true) /\
+    new_vg g' = new_vg g.
 Proof.
   intros g t r P Hlt Ut Ur.
   destruct (vinsertpair_spec g t r (wp_wf g P) Hlt) as (g' & n & E & W' & M' & N1 & N2 & Sh).
-  exists g', n. split; [exact E|]. split; [|split; [exact M'|split; [exact N1|split; [exact N2|]]]].
+  exists g', n. split; [exact E|]. split; [|split; [exact M'|split; [exact N1|split; [exact N2|split]]]].
   - rewrite Sh. apply WFpack_arrays; auto; rewrite <- Sh; auto.
     rewrite M'. apply Forall_app. split; [apply (wp_mem g P)|]. constructor; [split; auto|constructor].
+  - rewrite Sh. reflexivity.
   - rewrite Sh. reflexivity.
 Qed.
 
@@ -407,14 +409,15 @@ Qed.
 Lemma Vdeletetagref_pack : forall g t r, WFpack g -> u16 t = true -> u16 r = true ->
   match Vdeletetagref g t r with
   | Some g' => WFpack g' /\ remove_first (t, r) (members g) = Some (members g') /\
-               (vgname g', vgclass g', oref g', access g', marked g') = (vgname g, vgclass g, oref g, access g, true)
+               (vgname g', vgclass g', oref g', access g', marked g') = (vgname g, vgclass g, oref g, access g, true) /\
+               new_vg g' = new_vg g
   | None => remove_first (t, r) (members g) = None
   end.
 Proof.
   intros g t r P Ut Ur. pose proof (Vdeletetagref_spec g t r (wp_wf g P) Ut Ur) as S.
   destruct (Vdeletetagref g t r) as [g'|] eqn:E; [|exact S]. destruct S as (W' & R & N).
   unfold Vdeletetagref in E. destruct (scan _ _ _ _ _ _); [|discriminate]. inversion E as [Sh].
-  split; [|split; [rewrite Sh; exact R|reflexivity]].
+  split; [|split; [rewrite Sh; exact R|split; reflexivity]].
   apply WFpack_arrays; auto; rewrite Sh; auto.
   eapply remove_first_Forall; [exact R|apply (wp_mem g P)].
 Qed.
@@ -450,7 +453,8 @@ Record Inv (m : mstate) : Prop := mkInv {
   i_sv : forall k g, tget k (m_vg m) = Some g -> marked g = false -> saved (m_file m) k g;
   i_fs : forall k, tget k (m_file m) <> None -> tget k (m_vg m) <> None;
   i_hg : forall h r, In (h, r) (m_hg m) -> tget r (m_vg m) <> None;
-  i_hs : forall h r, In (h, r) (m_hs m) -> tget r (m_vs m) <> None }.
+  i_hs : forall h r, In (h, r) (m_hs m) -> tget r (m_vs m) <> None;
+  i_nw : forall k g, tget k (m_vg m) = Some g -> new_vg g = true -> tget k (m_file m) = None }.
 
 Lemma Inv_init : Inv minit.
 Proof. constructor; cbn; try constructor; intros; try discriminate; try contradiction; auto. Qed.
@@ -829,9 +833,9 @@ Proof.
 Qed.
 
 Lemma Inv_put : forall m h r g g', Inv m -> tget h (m_hg m) = Some r -> tget r (m_vg m) = Some g ->
-  WFpack g' -> oref g' = r -> marked g' = true -> Inv (m_put m r g').
+  WFpack g' -> oref g' = r -> marked g' = true -> new_vg g' = new_vg g -> Inv (m_put m r g').
 Proof.
-  intros m h r g g' I Eh Eg P' O' M'. unfold m_put.
+  intros m h r g g' I Eh Eg P' O' M' NV. unfold m_put.
   constructor; cbn [m_vg m_vs m_file m_hg m_hs]; try rewrite keys_tset; try apply I.
   - intros k gk E. rewrite tget_tset, Eg in E. destruct (Z.eqb_spec k r).
     + inversion E; subst. auto.
@@ -844,6 +848,9 @@ Proof.
     + apply (i_sv m I); auto.
   - intros k H. rewrite tget_tset, Eg. destruct (k =? r); [discriminate|]. apply (i_fs m I); auto.
   - intros h' r' H. rewrite tget_tset, Eg. destruct (r' =? r); [discriminate|]. eapply (i_hg m I); eauto.
+  - intros k gk E Nk. rewrite tget_tset, Eg in E. destruct (Z.eqb_spec k r).
+    + subst k. injection E as E'. subst gk. apply (i_nw m I r g Eg). congruence.
+    + apply (i_nw m I k gk); auto.
 Qed.
 
 Lemma abs_put : forall m r g', abs_state (m_put m r g') = put_vg (abs_state m) r (abs_vg (m_hg m) r g').
@@ -920,7 +927,7 @@ Proof.
   replace (zlen (g_members (abs_vg (m_hg m) r g))) with (nvelt g) by (cbn [g_members abs_vg]; auto).
   destruct (Z.leb_spec (nvelt g + 1) 65535) as [L|L]; cbn [negb].
   - destruct (vinsertpair_pack g t rf P ltac:(lia) (u16_is t C1) (u16_is rf C2))
-      as (g' & n & E & P' & M' & N1 & N2 & F).
+      as (g' & n & E & P' & M' & N1 & N2 & F & NV).
     rewrite E. inversion F as [[f1 f2 f3 f4 f5]]. edit_done m I h r g; [congruence| |].
     + unfold put_vg. cbn [fst]. f_equal. f_equal. apply abs_vg_members; auto. congruence.
     + right. cbn [g_members abs_vg]. rewrite N1, ML. reflexivity.
@@ -944,7 +951,7 @@ Proof.
   destruct (lfind (t, r2) (members g)); [obs_same I; right; reflexivity|].
   unfold room. replace (zlen (g_members (abs_vg (m_hg m) r g))) with (nvelt g) by (cbn [g_members abs_vg]; auto).
   destruct (Z.leb_spec (nvelt g + 1) 65535) as [L|L]; cbn [negb].
-  - destruct (vinsertpair_pack g t r2 P ltac:(lia) Ut Ur) as (g' & n & E & P' & M' & N1 & N2 & F).
+  - destruct (vinsertpair_pack g t r2 P ltac:(lia) Ut Ur) as (g' & n & E & P' & M' & N1 & N2 & F & NV).
     rewrite E. inversion F as [[f1 f2 f3 f4 f5]]. edit_done m I h r g; [congruence| |].
     + unfold put_vg. cbn [fst]. f_equal. f_equal. apply abs_vg_members; auto. congruence.
     + right. cbn [g_members abs_vg]. rewrite N1, ML. f_equal. f_equal. lia.
@@ -973,7 +980,7 @@ Proof.
   destruct (u16 t && u16 rf) eqn:C; [|left; reflexivity]. apply andb_true_iff in C as [C1 C2].
   pose proof (Vdeletetagref_pack g t rf P C1 C2) as S.
   destruct (Vdeletetagref g t rf) as [g'|].
-  - destruct S as (P' & R & F). rewrite R. inversion F as [[f1 f2 f3 f4 f5]].
+  - destruct S as (P' & R & F & NV). rewrite R. inversion F as [[f1 f2 f3 f4 f5]].
     edit_done m I h r g; [congruence| |].
     + unfold put_vg, ok0. cbn [fst]. f_equal. f_equal. apply abs_vg_members; auto. congruence.
     + right. reflexivity.
@@ -986,22 +993,22 @@ Lemma addmany_pack : forall c g t r st last, WFpack g -> nvelt g + Z.of_nat c <=
     members g' = add_many (members g) t r st c /\
     n = (if (c =? 0)%nat then last else nvelt g + Z.of_nat c) /\
     (vgname g', vgclass g', oref g', access g') = (vgname g, vgclass g, oref g, access g) /\
-    (c <> O -> marked g' = true).
+    (c <> O -> marked g' = true) /\ new_vg g' = new_vg g.
 Proof.
   induction c; intros g t r st last P L Ut Ur.
   - exists g, last. split; [reflexivity|]. split; [exact P|]. split; [reflexivity|]. split; [reflexivity|].
-    split; [reflexivity|]. intro H; contradiction.
+    split; [reflexivity|]. split; [intro H; contradiction|reflexivity].
   - cbn [addmany_loop add_many]. unfold Vaddtagref.
     assert (U0 : is_u16 r) by (specialize (Ur O ltac:(lia)); replace (r + Z.of_nat 0 * st) with r in Ur by lia; auto).
     rewrite (w16_is t Ut), (w16_is r U0).
-    destruct (vinsertpair_pack g t r P ltac:(lia) Ut U0) as (g1 & n1 & E & P1 & M1 & N1 & N2 & F).
+    destruct (vinsertpair_pack g t r P ltac:(lia) Ut U0) as (g1 & n1 & E & P1 & M1 & N1 & N2 & F & NV).
     rewrite E. injection F as f1 f2 f3 f4 f5.
-    destruct (IHc g1 t (r + st) st n1 P1 ltac:(lia) Ut) as (g' & n & E' & P' & M' & N' & F' & K').
+    destruct (IHc g1 t (r + st) st n1 P1 ltac:(lia) Ut) as (g' & n & E' & P' & M' & N' & F' & K' & NV').
     { intros i Hi. specialize (Ur (S i) ltac:(lia)).
       replace (r + st + Z.of_nat i * st) with (r + Z.of_nat (S i) * st) by lia. auto. }
     exists g', n. split; [exact E'|]. split; [exact P'|]. split; [rewrite M', M1; reflexivity|].
     injection F' as e1 e2 e3 e4.
-    split; [|split; [congruence|]].
+    split; [|split; [congruence|split; [|congruence]]].
     + rewrite N'. cbn [Nat.eqb]. rewrite Nat2Z.inj_succ. destruct (Nat.eqb_spec c 0); [subst c; cbn; lia|lia].
     + intros _. destruct c; [|apply K'; discriminate].
       cbn in E'. inversion E'; subst. exact f5.
@@ -1018,7 +1025,7 @@ Proof.
   apply andb_true_iff in C as [C C5]. apply andb_true_iff in C as [C C4]. apply andb_true_iff in C as [C C3].
   apply andb_true_iff in C as [C1 C2]. apply Z.leb_le in C4. apply Z.leb_le in C5.
   pose proof (u16_is _ C1) as U1. pose proof (u16_is _ C2) as U2. pose proof (u16_is _ C3) as U3.
-  destruct (addmany_pack (Z.to_nat c) g t rf st (-1) P ltac:(lia) U1) as (g' & n & E & P' & M' & N' & F & K).
+  destruct (addmany_pack (Z.to_nat c) g t rf st (-1) P ltac:(lia) U1) as (g' & n & E & P' & M' & N' & F & K & NV).
   { intros i Hi. unfold is_u16 in *. set (k := Z.of_nat i). assert (Hk : 0 <= k <= c - 1) by lia.
     destruct (Z.le_gt_cases 0 st).
     - assert (0 <= k * st) by (apply Z.mul_nonneg_nonneg; lia).
@@ -1084,6 +1091,9 @@ Proof.
       * inversion H; subst. rewrite tget_tins_same by auto. discriminate.
       * destruct (Z.eq_dec r' r); [subst; rewrite tget_tins_same by auto; discriminate|].
         rewrite tget_tins_other by auto. eapply (i_hg m I); eauto.
+    + intros k g E Nk. destruct (Z.eq_dec k r).
+      * subst. destruct (tget r (m_file m)) eqn:Ef; auto. exfalso. apply (i_fs m I r); congruence.
+      * rewrite tget_tins_other in E by auto. apply (i_nw m I k g); auto.
   - unfold abs_state. cbn [m_vg m_vs m_hg m_hs]. f_equal.
     unfold abs_table. rewrite <- tins_tmap.
     replace (abs_vg (tins h r (m_hg m)) r (new_vgroup r)) with (mkvg [] [] [] true).
@@ -1126,6 +1136,10 @@ Proof.
     + intros k H. rewrite tget_tset, Eg. destruct (k =? r); [discriminate|]. apply (i_fs m I); auto.
     + intros h' r' H. rewrite tget_tset, Eg. destruct (r' =? r); [discriminate|].
       apply In_tins in H. destruct H as [H|H]; [inversion H; subst; congruence|eapply (i_hg m I); eauto].
+    + intros k gk E Nk. rewrite tget_tset, Eg in E. destruct (Z.eqb_spec k r).
+      * subst k. injection E as E'. subst gk. apply (i_nw m I r g Eg). unfold g' in Nk.
+        destruct (attached_in r (m_hg m)); exact Nk.
+      * apply (i_nw m I k gk); auto.
   - unfold abs_state. cbn [m_vg m_vs m_hg m_hs]. f_equal.
     rewrite (abs_change (m_hg m) (tins h r (m_hg m)) (m_vg m) r g g' ND Eg).
     + f_equal. rewrite (abs_vg_core _ _ g g' C'), A'. rewrite attached_tins, Z.eqb_refl. cbn [orb andb].
@@ -1136,26 +1150,35 @@ Qed.
 
 (** what Vdetach's write-back leaves: an unmarked, stored vgroup with the same content *)
 Lemma write_back_spec : forall file g r, WFpack g -> oref g = r -> StronglySorted Z.lt (keys file) ->
-  (marked g = false -> saved file r g) ->
+  (marked g = false -> saved file r g) -> (new_vg g = true -> tget r file = None) ->
   let '(f, g') := write_back file g in
   WFpack g' /\ oref g' = r /\ core g' = core g /\ access g' = access g /\ marked g' = false /\
   StronglySorted Z.lt (keys f) /\ saved f r g' /\
-  (forall k, k <> r -> tget k f = tget k file) /\ tget r f <> None.
+  (forall k, k <> r -> tget k f = tget k file) /\ tget r f <> None /\
+  (new_vg g' = true -> tget r f = None) /\ write_fails file g = false /\
+  (marked g = true -> tget r f = Some (snd (vpackvg g))).
 Proof.
-  intros file g r P O S Sv. unfold write_back. destruct (marked g) eqn:Mk.
+  intros file g r P O S Sv Nw. unfold write_back, write_fails.
+  assert (EB : element_before_put file g = None).
+  { unfold element_before_put. destruct (new_vg g); [rewrite O; auto|reflexivity]. }
+  rewrite EB. cbn [Hputelement]. destruct (marked g) eqn:Mk.
   - destruct (vpackvg g) as [ver b] eqn:Ep.
     assert (Ev : ver = fst (vpackvg g)) by (rewrite Ep; reflexivity).
     assert (Eb : b = snd (vpackvg g)) by (rewrite Ep; reflexivity).
     split; [rewrite Ev; apply WFpack_saved; auto|]. split; [exact O|]. split; [reflexivity|].
     split; [reflexivity|]. split; [reflexivity|]. split; [apply sorted_tput; auto|].
-    split; [|split].
+    split; [|split; [|split; [|split; [|split]]]].
     + exists g. split; [exact P|split; [exact O|split; [|reflexivity]]].
       rewrite O, tget_tput, Z.eqb_refl, Eb. reflexivity.
     + intros k N. rewrite O, tget_tput. destruct (Z.eqb_spec k r); [contradiction|reflexivity].
     + rewrite O, tget_tput, Z.eqb_refl. discriminate.
+    + cbn. intro; discriminate.
+    + reflexivity.
+    + intros _. rewrite O, tget_tput, Z.eqb_refl. cbn [snd]. reflexivity.
   - specialize (Sv eq_refl). split; [exact P|]. split; [exact O|]. split; [reflexivity|]. split; [reflexivity|].
     split; [exact Mk|]. split; [exact S|]. split; [exact Sv|]. split; [reflexivity|].
-    destruct Sv as (g0 & _ & _ & T & _). rewrite T. discriminate.
+    split; [destruct Sv as (g0 & _ & _ & T & _); rewrite T; discriminate|].
+    split; [exact Nw|]. split; [reflexivity|]. intro; discriminate.
 Qed.
 
 Lemma sim_vgdetach : forall m h, Inv m -> sim_step m (OVgDetach h).
@@ -1165,9 +1188,9 @@ Proof.
   unfold abs_table. rewrite tget_tmap.
   destruct (tget r (m_vg m)) as [g|] eqn:Eg; cbn [option_map]; [|left; reflexivity].
   destruct (i_vg m I r g Eg) as [P Eo].
-  pose proof (write_back_spec (m_file m) g r P Eo (i_sf m I) (i_sv m I r g Eg)) as WB.
+  pose proof (write_back_spec (m_file m) g r P Eo (i_sf m I) (i_sv m I r g Eg) (i_nw m I r g Eg)) as WB.
   destruct (write_back (m_file m) g) as [f g'].
-  destruct WB as (P' & O' & C' & A' & M' & S' & Sv' & Fo & Fr).
+  destruct WB as (P' & O' & C' & A' & M' & S' & Sv' & Fo & Fr & Nw' & WF' & _). rewrite WF'.
   right. cbn [fst snd]. split; [|split; [|right; reflexivity]].
   - constructor; cbn [m_vg m_vs m_file m_hg m_hs]; try rewrite keys_tset; try apply I; auto.
     + intros k gk E. rewrite tget_tset, Eg in E. destruct (Z.eqb_spec k r).
@@ -1184,6 +1207,9 @@ Proof.
       apply (i_fs m I). rewrite <- Fo by auto. exact H.
     + intros h' r' H. rewrite tget_tset, Eg. destruct (r' =? r); [discriminate|].
       apply In_tdel in H. eapply (i_hg m I); eauto.
+    + intros k gk E Nk. rewrite tget_tset, Eg in E. destruct (Z.eqb_spec k r).
+      * subst k. injection E as E'. subst gk. auto.
+      * rewrite Fo by auto. apply (i_nw m I k gk); auto.
   - unfold abs_state. cbn [m_vg m_vs m_hg m_hs]. f_equal.
     rewrite (abs_change (m_hg m) (tdel h (m_hg m)) (m_vg m) r g g' ND Eg)
       by (intros k N; apply (attached_tdel_other _ h r k Eh N)).
@@ -1229,6 +1255,9 @@ Proof.
     + intros h' r' H. destruct (Z.eq_dec r' r).
       * subst. rewrite (attached_of_In _ _ _ H) in At. discriminate.
       * rewrite tget_tdel_other by auto. eapply (i_hg m I); eauto.
+    + intros k gk E Nk. destruct (Z.eq_dec k r).
+      * subst. rewrite tget_tdel_same in E by apply I. discriminate.
+      * rewrite tget_tdel_other in E by auto. rewrite tget_tdel_other by auto. apply (i_nw m I k gk); auto.
   - unfold abs_state. cbn [m_vg m_vs m_hg m_hs]. f_equal. unfold abs_table. rewrite tdel_tmap. reflexivity.
 Qed.
 
@@ -1390,6 +1419,7 @@ Proof.
       destruct (tget k (m_file m)); [eauto|contradiction].
     + intros h r [].
     + intros h r [].
+    + intros k g' E Nk. apply tget_In in E. destruct (T k g' E) as (g0 & _ & _ & _ & R0). subst g'. discriminate.
   - unfold abs_state, ok0. cbn [m_vg m_vs m_hg m_hs fst]. rewrite Ehg, Ehs. f_equal.
     unfold abs_table. apply tmap_eq_keys; [rewrite K, KK; reflexivity|].
     intros k g' gk I1 I2. destruct (T k g' I1) as (g0 & P0 & O0 & T0 & R0). subst g'.
@@ -1408,12 +1438,13 @@ Qed.
 Lemma lone_visits_spec : forall hg t f,
   StronglySorted Z.lt (keys t) -> StronglySorted Z.lt (keys f) ->
   (forall k g, In (k, g) t -> WFpack g /\ oref g = k /\ (marked g = true -> attached_in k hg = true) /\
-                              (marked g = false -> saved f k g)) ->
+                              (marked g = false -> saved f k g) /\ (new_vg g = true -> tget k f = None)) ->
   keys (snd (lone_visits hg f t)) = keys t /\
   StronglySorted Z.lt (keys (fst (lone_visits hg f t))) /\
   tmap (abs_vg hg) (snd (lone_visits hg f t)) = tmap (abs_vg hg) t /\
   (forall k g1, In (k, g1) (snd (lone_visits hg f t)) ->
-     WFpack g1 /\ oref g1 = k /\ marked g1 = false /\ saved (fst (lone_visits hg f t)) k g1) /\
+     WFpack g1 /\ oref g1 = k /\ marked g1 = false /\ saved (fst (lone_visits hg f t)) k g1 /\
+     (new_vg g1 = true -> tget k (fst (lone_visits hg f t)) = None)) /\
   (forall k, ~ In k (keys t) -> tget k (fst (lone_visits hg f t)) = tget k f) /\
   (forall k, tget k (fst (lone_visits hg f t)) <> None -> tget k f <> None \/ In k (keys t)).
 Proof.
@@ -1421,31 +1452,34 @@ Proof.
   - cbn. split; [reflexivity|]. split; [exact Sf|]. split; [reflexivity|]. split; [intros k0 g1 []|].
     split; [reflexivity|]. intros k0 N. left; exact N.
   - cbn [keys map fst] in St. inversion St as [|? ? St' Fk]; subst.
-    destruct (H k g (or_introl eq_refl)) as (P & O & Mk & Sv).
+    destruct (H k g (or_introl eq_refl)) as (P & O & Mk & Sv & Nw).
     cbn [lone_visits].
     (* the visit of the head *)
     assert (V : exists f1 g1, (if attached_in k hg then write_back f g else (f, set_first_attach g false)) = (f1, g1) /\
                 WFpack g1 /\ oref g1 = k /\ core g1 = core g /\ marked g1 = false /\
                 (attached_in k hg = true -> access g1 = access g) /\
                 StronglySorted Z.lt (keys f1) /\ saved f1 k g1 /\
-                (forall k', k' <> k -> tget k' f1 = tget k' f) /\ tget k f1 <> None).
+                (forall k', k' <> k -> tget k' f1 = tget k' f) /\ tget k f1 <> None /\
+                (new_vg g1 = true -> tget k f1 = None)).
     { destruct (attached_in k hg) eqn:At.
-      - pose proof (write_back_spec f g k P O Sf Sv) as WB. destruct (write_back f g) as [f1 g1].
-        destruct WB as (P1 & O1 & C1 & A1 & M1 & S1 & Sv1 & Fo & Fr). exists f1, g1. auto 12.
+      - pose proof (write_back_spec f g k P O Sf Sv Nw) as WB. destruct (write_back f g) as [f1 g1].
+        destruct WB as (P1 & O1 & C1 & A1 & M1 & S1 & Sv1 & Fo & Fr & Nw1 & _). exists f1, g1. auto 14.
       - assert (Mg : marked g = false) by (destruct (marked g); auto; specialize (Mk eq_refl); discriminate).
         specialize (Sv Mg). exists f, (set_first_attach g false).
         split; [reflexivity|]. split; [apply WFpack_access; auto|]. split; [exact O|]. split; [reflexivity|].
         split; [reflexivity|]. split; [intro; discriminate|]. split; [exact Sf|].
         split; [apply (saved_core f k g); auto|]. split; [reflexivity|].
-        destruct Sv as (g0 & _ & _ & T & _). rewrite T. discriminate. }
-    destruct V as (f1 & g1 & EV & P1 & O1 & C1 & M1 & A1 & S1 & Sv1 & Fo & Fr). rewrite EV.
+        split; [destruct Sv as (g0 & _ & _ & T & _); rewrite T; discriminate|exact Nw]. }
+    destruct V as (f1 & g1 & EV & P1 & O1 & C1 & M1 & A1 & S1 & Sv1 & Fo & Fr & Nw1). rewrite EV.
     assert (Hk : forall k' g', In (k', g') t -> k < k').
     { intros k' g' I. rewrite Forall_forall in Fk. apply Fk. apply (in_map fst) in I. exact I. }
     destruct (IHt f1 St' S1) as (K' & Sf' & Ab' & En' & Fo' & Fr').
-    { intros k' g' I. destruct (H k' g' (or_intror I)) as (P' & O' & Mk' & Sv').
-      split; [exact P'|split; [exact O'|split; [exact Mk'|]]]. intro Mg'.
-      destruct (Sv' Mg') as (g0 & P0 & O0 & T0 & C0). exists g0.
-      split; [exact P0|split; [exact O0|split; [|exact C0]]]. rewrite Fo; auto. specialize (Hk k' g' I). lia. }
+    { intros k' g' I. destruct (H k' g' (or_intror I)) as (P' & O' & Mk' & Sv' & Nw').
+      specialize (Hk k' g' I).
+      split; [exact P'|split; [exact O'|split; [exact Mk'|split]]].
+      - intro Mg'. destruct (Sv' Mg') as (g0 & P0 & O0 & T0 & C0). exists g0.
+        split; [exact P0|split; [exact O0|split; [|exact C0]]]. rewrite Fo; auto. lia.
+      - intro N'. rewrite Fo by lia. auto. }
     destruct (lone_visits hg f1 t) as [f2 t2]. cbn [fst snd] in *.
     assert (Nk : ~ In k (keys t)).
     { intro I. rewrite Forall_forall in Fk. specialize (Fk k I). lia. }
@@ -1455,9 +1489,10 @@ Proof.
       f_equal. rewrite (abs_vg_core hg k g g1 C1). unfold set_w, abs_vg. cbn [g_name g_class g_members].
       destruct (attached_in k hg) eqn:At; cbn [andb]; [rewrite A1 by auto|]; reflexivity.
     + intros k' g' [I|I].
-      * injection I as I1 I2. subst k' g'. split; [exact P1|split; [exact O1|split; [exact M1|]]].
-        destruct Sv1 as (g0 & P0 & O0 & T0 & C0). exists g0.
-        split; [exact P0|split; [exact O0|split; [|exact C0]]]. rewrite Fo'; auto.
+      * injection I as I1 I2. subst k' g'. split; [exact P1|split; [exact O1|split; [exact M1|split]]].
+        -- destruct Sv1 as (g0 & P0 & O0 & T0 & C0). exists g0.
+           split; [exact P0|split; [exact O0|split; [|exact C0]]]. rewrite Fo'; auto.
+        -- intro N'. rewrite Fo' by auto. auto.
       * apply En'; auto.
     + intros k' N. cbn [keys map fst In] in N. rewrite Fo' by tauto. apply Fo. intro; subst. apply N. left; reflexivity.
     + intros k' N. cbn [keys map fst In]. destruct (Z.eq_dec k' k); [right; left; auto|].
@@ -1469,7 +1504,7 @@ Proof.
   intros m I. unfold lone_side_effect.
   destruct (lone_visits_spec (m_hg m) (m_vg m) (m_file m) (i_sg m I) (i_sf m I)) as (K & Sf & Ab & En & Fo & Fr).
   { intros k g Hin. apply tget_sorted_in in Hin; [|apply I]. destruct (i_vg m I k g Hin) as [P O].
-    split; [exact P|split; [exact O|split; [apply (i_mk m I k g Hin)|apply (i_sv m I k g Hin)]]]. }
+    split; [exact P|split; [exact O|split; [apply (i_mk m I k g Hin)|split; [apply (i_sv m I k g Hin)|apply (i_nw m I k g Hin)]]]]. }
   destruct (lone_visits (m_hg m) (m_file m) (m_vg m)) as [f t]. cbn [fst snd] in *.
   assert (TG : forall k, tget k t <> None <-> tget k (m_vg m) <> None).
   { intro k. split; intros N E; apply tget_none_notin in E; apply N; apply tget_none_notin; congruence. }
@@ -1477,10 +1512,11 @@ Proof.
   - constructor; cbn [m_vg m_vs m_file m_hg m_hs]; try apply I; try (rewrite K; apply I); auto.
     + intros k g1 E. apply tget_In in E. destruct (En k g1 E) as (P1 & O1 & _). auto.
     + intros k g1 E Mk. apply tget_In in E. destruct (En k g1 E) as (_ & _ & M1 & _). congruence.
-    + intros k g1 E Mk. apply tget_In in E. destruct (En k g1 E) as (_ & _ & _ & S1). exact S1.
+    + intros k g1 E Mk. apply tget_In in E. destruct (En k g1 E) as (_ & _ & _ & S1 & _). exact S1.
     + intros k N. apply TG. destruct (Fr k N) as [N1|N1]; [apply (i_fs m I); auto|].
       intro E. apply tget_none_notin in E. contradiction.
     + intros h r Hin. apply TG. eapply (i_hg m I); eauto.
+    + intros k g1 E Nk. apply tget_In in E. destruct (En k g1 E) as (_ & _ & _ & _ & N1). auto.
   - unfold abs_state. cbn [m_vg m_vs m_hg m_hs]. f_equal. exact Ab.
 Qed.
 
@@ -1649,7 +1685,7 @@ Qed.
 Lemma addlist_pack : forall l g, WFpack g -> nvelt g + zlen l <= 65535 -> Forall pair_u16 l ->
   exists g', addlist_loop g l = Some g' /\ WFpack g' /\ members g' = members g ++ l /\
     (vgname g', vgclass g', oref g', access g') = (vgname g, vgclass g, oref g, access g) /\
-    (marked g = true -> marked g' = true).
+    (marked g = true -> marked g' = true) /\ new_vg g' = new_vg g.
 Proof.
   induction l as [|[t r] l]; intros g P L F.
   - exists g. split; [reflexivity|]. split; [exact P|]. split; [rewrite app_nil_r; reflexivity|]. split; [reflexivity|auto].
@@ -1657,11 +1693,11 @@ Proof.
     assert (ZL : zlen ((t, r) :: l) = 1 + zlen l) by (unfold zlen; cbn [length]; lia).
     assert (0 <= zlen l) by (unfold zlen; lia).
     cbn [addlist_loop]. unfold Vaddtagref. rewrite (w16_is t Ut), (w16_is r Ur).
-    destruct (vinsertpair_pack g t r P ltac:(lia) Ut Ur) as (g1 & n1 & E & P1 & M1 & N1 & N2 & F1).
+    destruct (vinsertpair_pack g t r P ltac:(lia) Ut Ur) as (g1 & n1 & E & P1 & M1 & N1 & N2 & F1 & NV1).
     rewrite E. injection F1 as f1 f2 f3 f4 f5.
-    destruct (IHl g1 P1 ltac:(lia) F') as (g' & E' & P' & M' & F2 & K').
+    destruct (IHl g1 P1 ltac:(lia) F') as (g' & E' & P' & M' & F2 & K' & NV').
     exists g'. split; [exact E'|]. split; [exact P'|]. split; [rewrite M', M1, <- app_assoc; reflexivity|].
-    injection F2 as e1 e2 e3 e4. split; [congruence|]. intros _. apply K'. exact f5.
+    injection F2 as e1 e2 e3 e4. split; [congruence|]. split; [intros _; apply K'; exact f5|congruence].
 Qed.
 
 Lemma opt_ok_spec : forall o, opt_ok o = true ->
@@ -1702,12 +1738,14 @@ Proof.
       rewrite E, E. fold (members g1). auto 10.
     - split; [exact Pg1|]. rewrite Cl1. cbn. auto 10. }
   destruct P2 as (Pg2 & Nm2 & Cl2 & Mb2 & Or2 & Mk2 & Nv2).
-  destruct (addlist_pack l g2 Pg2 ltac:(lia) Fl) as (g3 & E3 & P3 & M3 & F3 & K3).
+  destruct (addlist_pack l g2 Pg2 ltac:(lia) Fl) as (g3 & E3 & P3 & M3 & F3 & K3 & NV3).
   rewrite E3. injection F3 as e1 e2 e3 e4. rewrite Mb2 in M3. cbn [app] in M3.
+  assert (NoRec : tget r (m_file m) = None).
+  { destruct (tget r (m_file m)) eqn:Ef; auto. exfalso. apply (i_fs m I r); congruence. }
   pose proof (write_back_spec (m_file m) g3 r P3 ltac:(congruence) (i_sf m I)) as WB.
-  specialize (WB ltac:(intro X; rewrite (K3 Mk2) in X; discriminate)).
+  specialize (WB ltac:(intro X; rewrite (K3 Mk2) in X; discriminate) ltac:(intro; exact NoRec)).
   destruct (write_back (m_file m) g3) as [f g4].
-  destruct WB as (P4 & O4 & C4 & A4 & M4 & S4 & Sv4 & Fo & Fr).
+  destruct WB as (P4 & O4 & C4 & A4 & M4 & S4 & Sv4 & Fo & Fr & Nw4 & _).
   assert (NotAtt : attached_in r (m_hg m) = false).
   { destruct (attached_in r (m_hg m)) eqn:At; auto. unfold attached_in in At. apply existsb_exists in At.
     destruct At as ([h' r'] & Hin & Er). cbn in Er. apply Z.eqb_eq in Er. subst r'.
@@ -1734,6 +1772,9 @@ Proof.
       * rewrite tget_tins_other by auto. apply (i_fs m I). rewrite <- Fo by auto. exact H.
     + intros h' r' H. destruct (Z.eq_dec r' r); [subst r'; rewrite tget_tins_same by auto; discriminate|].
       rewrite tget_tins_other by auto. eapply (i_hg m I); eauto.
+    + intros k g E Nk. destruct (Z.eq_dec k r).
+      * subst k. rewrite tget_tins_same in E by auto. injection E as E. subst g. auto.
+      * rewrite tget_tins_other in E by auto. rewrite Fo by auto. apply (i_nw m I k g); auto.
   - unfold abs_state. cbn [m_vg m_vs m_hg m_hs]. f_equal.
     unfold abs_table. rewrite <- tins_tmap. f_equal.
     unfold abs_vg. rewrite NotAtt. cbn [andb].
@@ -1822,4 +1863,78 @@ Proof.
   - rewrite U. exact Logic.I.
   - destruct (snd (step (abs_state m) o)) eqn:E; try exact Logic.I;
       (split; [exact R'|rewrite <- A'; apply IHops; exact I']).
+Qed.
+
+(* ================================================================================================== *)
+(** * Vdetach leaves exactly the packed record in the file *)
+
+(** whatever the element held before -- nothing, a shorter record, a longer record -- after Vdetach of a marked
+    vgroup it is exactly vpackvg's bytes (length = the size vpackvg reported), the write cannot fail, and Load_vfile
+    reads the same vgroup back *)
+Lemma detach_exact_lemma : forall file g r, WFpack g -> oref g = r -> StronglySorted Z.lt (keys file) ->
+  marked g = true -> (new_vg g = true -> tget r file = None) ->
+  write_fails file g = false /\
+  tget r (fst (write_back file g)) = Some (snd (vpackvg g)) /\
+  length (snd (vpackvg g)) = packed_size g /\
+  vunpackvg r (snd (vpackvg g)) = Some (reloaded g) /\
+  core (reloaded g) = core g /\
+  (forall k, k <> r -> tget k (fst (write_back file g)) = tget k file).
+Proof.
+  intros file g r P O S Mk Nw.
+  pose proof (write_back_spec file g r P O S ltac:(intro X; congruence) Nw) as WB.
+  destruct (write_back file g) as [f g']. cbn [fst].
+  destruct WB as (_ & _ & _ & _ & _ & _ & _ & Fo & _ & _ & WF & Ex).
+  split; [exact WF|]. split; [exact (Ex Mk)|]. split; [apply vpackvg_length; auto|].
+  split; [rewrite <- O; apply pack_roundtrip_lemma; auto|]. split; [apply reloaded_core; auto|exact Fo].
+Qed.
+
+(** the invariant travels along every history that stays inside the property's domain *)
+Fixpoint m_final (m : mstate) (ops : list op) : mstate :=
+  match ops with [] => m | o :: r => m_final (fst (mstep m o)) r end.
+Fixpoint in_domain (rs : list res) : Prop :=
+  match rs with [] => True | RUnspec :: _ => False | _ :: r => in_domain r end.
+
+Lemma reachable_Inv : forall ops m, Inv m -> in_domain (s_trace (abs_state m) ops) -> Inv (m_final m ops).
+Proof.
+  induction ops as [|o ops]; intros m I D; cbn [m_final]; auto.
+  cbn [s_trace in_domain] in D.
+  destruct (step_sim m o I) as [U|(I' & A' & _)].
+  - rewrite U in D. contradiction.
+  - apply IHops; auto. rewrite A'. destruct (snd (step (abs_state m) o)); auto; contradiction.
+Qed.
+
+(** ... so in every state reached from the empty file, each vgroup that is not being edited is in the file as exactly
+    the packed record of a storable vgroup with the same name, class and members, and reloading it gives them back *)
+Lemma store_exact_on_histories : forall ops, in_domain (s_trace init ops) ->
+  forall k g, tget k (m_vg (m_final minit ops)) = Some g -> marked g = false ->
+  exists g0, WFpack g0 /\ oref g0 = k /\ core g0 = core g /\
+             tget k (m_file (m_final minit ops)) = Some (snd (vpackvg g0)) /\
+             length (snd (vpackvg g0)) = packed_size g0 /\
+             vunpackvg k (snd (vpackvg g0)) = Some (reloaded g0) /\ core (reloaded g0) = core g.
+Proof.
+  intros ops D k g E Mk. pose proof (reachable_Inv ops minit Inv_init D) as I.
+  destruct (i_sv _ I k g E Mk) as (g0 & P0 & O0 & T0 & C0). exists g0.
+  split; [exact P0|]. split; [exact O0|]. split; [exact C0|]. split; [exact T0|].
+  split; [apply vpackvg_length; auto|]. split; [rewrite <- O0; apply pack_roundtrip_lemma; auto|].
+  rewrite reloaded_core by auto. exact C0.
+Qed.
+
+(** why Vdetach must invalidate the old descriptor first: written in place over the record of "station_A1", the one
+    byte shorter record of "station_B" keeps the old length, Load_vfile then finds the version field one byte off
+    (0x0300) and does not decode the vgroup *)
+Definition ex_station (nm : bytes) : VGROUP := set_name (new_vgroup 9) (set_string nm).
+Definition ex_name_a1 : bytes := [115; 116; 97; 116; 105; 111; 110; 95; 65; 49].
+Definition ex_name_b : bytes := [115; 116; 97; 116; 105; 111; 110; 95; 66].
+
+Lemma in_place_write_refuted_lemma :
+  exists g0 g, WFpack g0 /\ WFpack g /\ oref g0 = oref g /\
+    match Hputelement (Some (snd (vpackvg g0))) (snd (vpackvg g)) with
+    | Some e => length e = length (snd (vpackvg g0)) /\ vunpackvg (oref g) e <> Some (reloaded g)
+    | None => False
+    end.
+Proof.
+  exists (ex_station ex_name_a1), (ex_station ex_name_b).
+  split; [apply (set_name_pack (new_vgroup 9) ex_name_a1 (WFpack_new 9)); [reflexivity|vm_compute; discriminate]|].
+  split; [apply (set_name_pack (new_vgroup 9) ex_name_b (WFpack_new 9)); [reflexivity|vm_compute; discriminate]|].
+  split; [reflexivity|]. vm_compute. split; [reflexivity|discriminate].
 Qed.
